@@ -63,7 +63,7 @@ def tag_values(tag):
 # tomogram numbers) are inside the property's quantifier.  Non-zero bases are only used where the operation does not
 # write absolute numbers into that column (set per history by run_history).
 BASES = {"sid": 0, "tomo": 0, "obj": 0, "cls": 0}
-BASE_CHOICES = [0, 100000, 250000, 240115, 999998]
+BASE_CHOICES = [0, 100000, 250000, 240115, 999998, -1]      # -1: the smallest value of the column is 0
 
 
 def set_bases(**kw):
@@ -496,13 +496,37 @@ def gen_table(rng, n, tag0, like=None, bases=(0, 0, 0, 0)):
     for i in range(n):
         if like and rng.random() < 0.6:
             src = like[rng.randrange(len(like))]
-            sid, tomo, obj = src[0], src[1], rng.choice([src[2], bases[2] + rng.randint(1, nobj)])
+            sid, tomo, obj = src[0], src[1], rng.choice([src[2], num(bases[2]) + rng.randint(1, nobj)])
             score = rng.choice([src[3], rng.randint(1, NSCORE_SIM)])
         else:
-            sid, tomo, obj, score = bases[0] + rng.randint(1, top), bases[1] + rng.randint(1, ntomo), \
-                bases[2] + rng.randint(1, nobj), rng.randint(1, NSCORE_SIM if rng.random() < 0.8 else 3)
-        rows.append([sid, tomo, obj, score, bases[3] + rng.randint(1, ncls), tag0 + i + 1])
+            sid, tomo, obj, score = bases[0] + rng.randint(1, top), num(bases[1]) + rng.randint(1, ntomo), \
+                num(bases[2]) + rng.randint(1, nobj), rng.randint(1, NSCORE_SIM if rng.random() < 0.8 else 3)
+        rows.append([sid, tomo, obj, score, num(bases[3]) + rng.randint(1, ncls), tag0 + i + 1])
+    return zero_columns(rows, bases)
+
+
+def zero_columns(rows, bases):
+    """Identifier columns that were never assigned: bases[j] == "zero" makes column j (tomo / obj / cls) all 0."""
+    for j, col in ((1, 1), (2, 2), (3, 4)):
+        if bases[j] == "zero":
+            for r in rows:
+                r[col] = 0
     return rows
+
+
+def pick_bases(rng):
+    """Offsets of the sid / tomo / obj / cls values of a table pair; "zero" = the column is all 0 in both tables."""
+    if rng.random() < 0.4:
+        return (0, 0, 0, 0)
+    b = [rng.choice(BASE_CHOICES) for _ in range(4)]
+    for j in (1, 2, 3):
+        if rng.random() < 0.25:
+            b[j] = "zero"
+    return tuple(b)
+
+
+def num(b):
+    return 0 if b == "zero" else b
 
 
 def write_inits(ctx, name, sizes):
@@ -510,7 +534,7 @@ def write_inits(ctx, name, sizes):
     path = os.path.join(ctx.sub(name), "inits.ndjson")
     with open(path, "w") as fh:
         for n in sizes:
-            bases = (0, 0, 0, 0) if rng.random() < 0.5 else tuple(rng.choice(BASE_CHOICES) for _ in range(4))
+            bases = pick_bases(rng)
             a = gen_table(rng, n, 0, bases=bases)
             nb = rng.choice([0, 1, max(1, n // 2), n]) if n else rng.randint(0, 3)
             b = gen_table(rng, min(nb, 200), 500, like=a or None, bases=bases)
@@ -521,7 +545,8 @@ def write_inits(ctx, name, sizes):
 def gen_overlap_pair(rng):
     """A pair for single-call tests on medium tables: the first table repeats values of every key column, the second
     one has many (20..60) distinct values per identifier column and lacks some of the values the first one repeats."""
-    bases = (0, 0, 0, 0) if rng.random() < 0.5 else tuple(rng.choice(BASE_CHOICES) for _ in range(4))
+    zb = pick_bases(rng)
+    bases = tuple(num(b) for b in zb)
     na, nb = rng.randint(8, 60), rng.randint(20, 60)
     pool_s = max(3, int(na * rng.choice([0.3, 0.5, 0.8])))            # sid values of A (repeated)
     pool_o = max(3, int(na * rng.choice([0.2, 0.5])))
@@ -543,7 +568,7 @@ def gen_overlap_pair(rng):
         obj = cand_o[i % len(cand_o)] if rng.random() < 0.9 else rng.choice(cand_o)
         b.append([bases[0] + sid, bases[1] + rng.randint(1, ntomo + 1), bases[2] + obj, rng.randint(1, NSCORE_SIM),
                   bases[3] + rng.randint(1, ncls + 1), 500 + i + 1])
-    return {"a": a, "b": b}
+    return {"a": zero_columns(a, zb), "b": zero_columns(b, zb)}
 
 
 def medium_transitions(ctx, judge, npairs, budget):
@@ -566,7 +591,7 @@ def medium_transitions(ctx, judge, npairs, budget):
     if not any(k.startswith("intersect") for k in by_kind):
         raise core.MachineryError("coverage hole: no intersection among the medium-table transitions")
     share = max(1, budget // len(by_kind))
-    chosen = [t for k in sorted(by_kind) for t in by_kind[k][:(4 * share if k.startswith("intersect") else share)]]
+    chosen = [t for k in sorted(by_kind) for t in by_kind[k][:(4 * share if k.startswith(("intersect", "merge")) else share)]]
     ctx.extra["medium_transitions_emitted"] = len(trs)
     ctx.extra["medium_transitions_replayed"] = len(chosen)
     for i, t in enumerate(chosen):
